@@ -73,7 +73,9 @@ def scan(text):
             in_dir = raw.rstrip().endswith("\\") and not in_dir_comment
             continue
         stripped = raw.strip()
-        if in_char is None and stripped.startswith("#"):
+        # (the preprocessor runs first and knows nothing about Fortran: a line whose first character is `#` is a directive
+        # also between the pieces of a continued character literal; the literal's state is left as it is)
+        if stripped.startswith("#"):
             counted.append(no)
             directive.add(no)
             in_dir_comment = open_comment_at_end(raw, False)
